@@ -64,7 +64,11 @@ def main():
             lines.append("%-44s %s" % (name, status)); continue
         fired = {p: r for p, r in out.items() if r}
         if m["kind"] == "break":
-            good = bool(fired) and (not m["rule"] or any(m["rule"] in r for r in fired.values()))
+            good = all(out.get(p_) for p_ in out)
+            if m["rule"]:
+                owner = m["rule"].split(".")[0]
+                if owner in out:
+                    good = good and m["rule"] in out[owner]
             if good: detected += 1
             else: missed += 1
             lines.append("%-44s %s  %s" % (name, "DETECTED" if good else "MISSED  ", json.dumps(fired)))
